@@ -347,3 +347,36 @@ def _only_len(t: Term, s: Term) -> bool:
         if x[0] == "call" and key(x[1]) == "len" and x[2] and x[2][0] == s:
             return True
     return False
+
+
+@rule("C06.R6", "both order books follow the market clock: every clock method hands each book exactly the market's new time, and a book stores exactly the time it is given", "T4 exactly-once + T7 + T1", floor=6)
+def r6(ctx: Ctx) -> None:
+    BST = "OrderBook._set_time"
+    for q in (UT, "Market._set_time"):
+        f = ctx.func(q)
+        n = 0
+        for p in normal_paths(ctx.paths(q)):
+            n += 1
+            ts = [e for e in stores(p, "time", into_loops=False) if e.owner in ("Market", "?") and key(strip_ver(e.base)) == "self"]
+            sets = [e for e in calls(p, into_loops=False) if calls_target(e, BST)]
+            if len(ts) != 1:
+                ctx.violated(f, f.node, f"{q}: the market clock is written once", "one store to self.time", f"{len(ts)} store(s)")
+                continue
+            new = strip_ver(ts[0].value)
+            got = sorted(key(strip_ver(e.recv)) for e in sets if e.recv is not None)
+            ok = got == ["self.buy_order_book", "self.sell_order_book"]
+            args_ok = all(poly_of(strip_ver(kw(e, "time", 0) or NONE)) == poly_of(new) for e in sets)
+            after = all(p.events.index(e) > p.events.index(ts[0]) for e in sets)
+            ctx.check(ok and args_ok and after, f, ts[0].node, f"{q}: each book is set once to the market's new time", "buy_order_book._set_time(t'), sell_order_book._set_time(t') with t' the value just stored in self.time",
+                      "; ".join(f"{short(e.recv)}._set_time({short(kw(e, 'time', 0))})" for e in sets) or "no book is told")
+        ctx.require(n >= 1, f"{q}: no normal path")
+    g = ctx.func(BST)
+    for p in normal_paths(ctx.paths(BST)):
+        ts = [e for e in stores(p, "time") if key(strip_ver(e.base)) == "self"]
+        ok = len(ts) == 1 and strip_ver(ts[0].value) == ("sym", g.params[1] if len(g.params) > 1 else "time")
+        ctx.check(ok, g, g.node, "a book stores exactly the time it is given", "self.time = time", "; ".join(short(e.value) for e in ts))
+        reap = [e for e in calls(p) if e.name == "_check_expired_orders"]
+        ctx.check(len(reap) == 1 and ts and p.events.index(reap[0]) > p.events.index(ts[0]), g, g.node, "expired orders are reaped against the new time", "self.time = time; self._check_expired_orders()", f"{len(reap)} reap call(s)")
+    writer_allowlist(ctx, "OrderBook", "time", {"OrderBook.__init__": "constructor", BST: "setter used by the market", "OrderBook._update_time": "book-local step (no caller in pams)"})
+    for s in ctx.cg.sites_calling(BST):
+        ctx.check(caller_ok(ctx, s.caller, lambda h: h.qualname in (UT, "Market._set_time")), s.caller, s.node, f"caller of {BST}", "the market's clock methods", s.caller.qualname)
